@@ -657,6 +657,8 @@ pub fn solve_itp(
     let nmax = n0 + n1_2;
     let mut scaled_epsilon = epsilon * (1u64 << nmax) as f64;
     while b - a > 2.0 * epsilon {
+        #[cfg(kurbo_verif)]
+        crate::verif::tick();
         let x1_2 = 0.5 * (a + b);
         let r = scaled_epsilon - 0.5 * (b - a);
         let xf = (yb * a - ya * b) / (yb - ya);
@@ -707,6 +709,8 @@ pub(crate) fn solve_itp_fallible<E>(
     let nmax = n0 + n1_2;
     let mut scaled_epsilon = epsilon * (1u64 << nmax) as f64;
     while b - a > 2.0 * epsilon {
+        #[cfg(kurbo_verif)]
+        crate::verif::tick();
         let x1_2 = 0.5 * (a + b);
         let r = scaled_epsilon - 0.5 * (b - a);
         let xf = (yb * a - ya * b) / (yb - ya);
@@ -951,6 +955,24 @@ pub const GAUSS_LEGENDRE_COEFFS_32_HALF: &[(f64, f64)] = &[
     (0.0162743947309057, 0.9856115115452684),
     (0.0070186100094701, 0.9972638618494816),
 ];
+
+
+/// Verification hooks: access to private helpers.
+#[cfg(kurbo_verif)]
+#[allow(missing_docs)]
+pub fn verif_eps_rel(raw: f64, a: f64) -> f64 {
+    eps_rel(raw, a)
+}
+#[cfg(kurbo_verif)]
+#[allow(missing_docs)]
+pub fn verif_depressed_cubic_dominant(g: f64, h: f64) -> f64 {
+    depressed_cubic_dominant(g, h)
+}
+#[cfg(kurbo_verif)]
+#[allow(missing_docs)]
+pub fn verif_solve_quartic_inner(a: f64, b: f64, c: f64, d: f64, rescale: bool) -> Option<ArrayVec<f64, 4>> {
+    solve_quartic_inner(a, b, c, d, rescale)
+}
 
 #[cfg(test)]
 mod tests {
